@@ -219,7 +219,10 @@ func queryBitmaps(thorough bool) []bmShape {
 		{"A1,Rfull adjacent", P("ak", 2, "akeys", 3, "acow", 0, "ac0", 1, "ac1", 220), 0, -1, 0},
 		{"B0@key1 win", P("ak", 2, "akeys", 4, "acow", 0, "ac0", 1, "ac1", 100), 65536 + 4150, 15, 0},
 		{"B3@key0 win-lo", P("ak", 2, "akeys", 4, "acow", 0, "ac0", 103, "ac1", 1), 56, 15, 0},
-		{"B3@key0 win-hi", P("ak", 2, "akeys", 4, "acow", 0, "ac0", 103, "ac1", 1), 65528, 15, 0},
+		// two windows instead of one across the chunk edge: with the chunk key fixed, the word index of the argument is a constant
+		// (a downward / upward scan through ~1000 full words with a symbolic-but-unique word index costs two solver calls per word)
+		{"B3@key0 win-hi", P("ak", 2, "akeys", 4, "acow", 0, "ac0", 103, "ac1", 1), 65528, 7, 0},
+		{"B3@key0 win-next-chunk", P("ak", 2, "akeys", 4, "acow", 0, "ac0", 103, "ac1", 1), 65536, 7, 0},
 		{"A3,A1,R1", P("ak", 3, "akeys", 0, "acow", 0, "ac0", 3, "ac1", 1, "ac2", 201), 0, -1, 1},
 		{"Rfull,Rfull,A2 adjacent", P("ak", 3, "akeys", 3, "acow", 0, "ac0", 220, "ac1", 220, "ac2", 2), 0, -1, 1},
 		{"B1@key1 win", P("ak", 2, "akeys", 4, "acow", 0, "ac0", 2, "ac1", 101), 65536 + 4150, 31, 1},
@@ -364,7 +367,7 @@ func c02Instances(add func(*Instance), thorough bool, inv int) {
 			{bmp, 65536 + 60, 7, 65536 + 65528, 7, -1, 1},                   // almost the whole bitmap chunk (-> full / empty)
 			{full, 100, 7, 65530, 7, -1, 0},                                 // inside a full run chunk
 			{P("ak", 1, "akeys", 4, "acow", 1, "ac0", 212), 0, 65535, 0, 0, ln, 1}, // free run lengths, cow
-			{P("ak", 1, "akeys", 4, "acow", 1, "ac0", 202), 0, 65535, 0, 0, 3, 1},  // short runs, cow (2-4 min each since minimizeRunContainer joined the range paths)
+			{P("ak", 1, "akeys", 4, "acow", 1, "ac0", 202), 0, 65535, 0, 0, 3, map[int]int{6: 1, 7: 0, 8: 1}[m]}, // two short runs, cow (AddRange/Flip: > 4 min since minimizeRunContainer joined the range paths)
 			{P("ak", 1, "akeys", 4, "acow", 1, "ac0", 201), 0, 65535, 0, 0, 3, 0},        // one short run, cow
 			{two, 0, 262143, 0, 0, 7, 1},
 			{P("ak", 1, "akeys", 4, "acow", 0, "ac0", 13), 30720, 31, 30800, 31, -1, 1}, // range on a 4096-element array
